@@ -139,7 +139,9 @@ def write_replay(prop, fn_result, vc):
                'kind': vc['kind'], 'backend': vc['backend'], 'clause': (vc.get('detail') or {}).get('clause'),
                'solver_goal': (vc.get('detail') or {}).get('goal'), 'counter_model': vc.get('model'),
                'spec': fn_result.get('replay_info', {}).get('spec'), 'let': fn_result.get('replay_info', {}).get('let'),
-               'requires': fn_result.get('replay_info', {}).get('requires'), 'repo': REPO}, open(p, 'w'), indent=1)
+               'requires': fn_result.get('replay_info', {}).get('requires'),
+               'harness': fn_result.get('replay_info', {}).get('harness'),
+               'module': fn_result.get('replay_info', {}).get('module'), 'repo': REPO}, open(p, 'w'), indent=1)
     return p
 
 
